@@ -95,6 +95,26 @@ def limited(thunk, seconds=0.5):
         signal.signal(signal.SIGALRM, old)
 
 
+# the value type RFC 5545 3.3.10 / RFC 7529 give to each rule part
+RFC_KIND = {"COUNT": "int", "INTERVAL": "int", "BYSECOND": "int", "BYMINUTE": "int", "BYHOUR": "int", "BYMONTHDAY": "int", "BYYEARDAY": "int",
+            "BYWEEKNO": "int", "BYSETPOS": "int", "BYMONTH": "month", "BYDAY": "weekday", "WKST": "weekday", "FREQ": "name", "UNTIL": "date",
+            "RSCALE": "name", "SKIP": "name"}
+
+
+def typed_equal(kind, supplied, decoded):
+    if kind == "int":
+        return isinstance(decoded, int) and not isinstance(decoded, bool) and decoded == int(supplied)
+    if kind == "month":
+        return isinstance(decoded, int) and str(decoded) == str(supplied) and int(decoded) == int(str(supplied).rstrip("L"))
+    if kind == "weekday":
+        return isinstance(decoded, str) and decoded.upper().lstrip("+") == str(supplied).upper().lstrip("+")
+    if kind == "name":
+        return isinstance(decoded, str) and decoded.upper() == str(supplied).upper()
+    if kind == "date":
+        return type(decoded) is type(supplied) and decoded == supplied
+    return True
+
+
 def norm_vals(v):
     from icalendar import prop
     vs = v if isinstance(v, (list, tuple)) else [v]
@@ -130,6 +150,12 @@ def check(rule):
         got = [typ(x).to_ical() for x in back[k]]
         if got != want:
             msgs.append(f"part {k}: decoded {back[k]!r} for supplied {v!r}")
+        # the typed values themselves, against the RFC's value type of the part (not the implementation's table)
+        kind = RFC_KIND.get(k.upper())
+        for sup, dec in zip(norm_vals(v), back[k]):
+            if not typed_equal(kind, sup, dec):
+                msgs.append(f"part {k.upper()}: typed value {dec!r} ({type(dec).__name__}) decoded for supplied {sup!r} (RFC value type: {kind})")
+                break
     for tail in (";", ";;"):
         try:
             if prop.vRecur.from_ical(text + tail).to_ical().decode() != text:
